@@ -50,8 +50,10 @@ let rerror_of_string s : rerror option = match s with
        | Some (Some r) -> Some (RProtocol r) | _ -> None)
     else None
 
+(* a source returning its last bytes together with the error ("eofdata"/"faildata") delivers the same
+   bytes and the same final error as one returning them separately *)
 let mk_src data spec tail =
-  { chunks = chunk_by (sizes_of_spec spec (List.length data)) data; tl = (if tail = "fail" then TFail else TEOF) }
+  { chunks = chunk_by (sizes_of_spec spec (List.length data)) data; tl = (if tail = "fail" || tail = "faildata" then TFail else TEOF) }
 
 let rec take_n k l = if k <= 0 then [] else match l with [] -> [] | x :: r -> x :: take_n (k-1) r
 
@@ -79,7 +81,7 @@ let () =
        | None -> Viol ("reader ended with an unclassified outcome: " ^ err)
        | Some e ->
          let ok =
-           if cut_kind then cut_monitor c cb fs (n_of_int (if cut = "-" then List.length (wire fs) else int_of_string cut)) (tail = "fail") evs e
+           if cut_kind then cut_monitor c cb fs (n_of_int (if cut = "-" then List.length (wire fs) else int_of_string cut)) (tail = "fail" || tail = "faildata") evs e
            else reader_monitor c cb fs evs (Some partial) e in
          if not ok then
            Viol (if cut_kind then "cut stream: a truncated frame/message was reported, handed to the control callback, or ended in a clean EOF"
@@ -104,7 +106,7 @@ let () =
        | None -> Viol ("ReadMessage ended with an unclassified outcome: " ^ err)
        | Some e ->
          let ok =
-           if cut_kind then cut_monitor c true fs (n_of_int (if cut = "-" then List.length (wire fs) else int_of_string cut)) (tail = "fail") evs e
+           if cut_kind then cut_monitor c true fs (n_of_int (if cut = "-" then List.length (wire fs) else int_of_string cut)) (tail = "fail" || tail = "faildata") evs e
            else reader_monitor c true fs evs None e in
          if not ok then
            Viol (if cut_kind then "ReadMessage on a cut stream returned a truncated message / control payload or a clean EOF"
